@@ -749,6 +749,7 @@ func C14(args []string) {
 		}
 		e.Check = func(choices []int, res *vs.Result) {
 			r.Evals.Add(1)
+			r.Heartbeat()
 			for _, fd := range c14Judge(sc, &o, res) {
 				v := sc
 				v.Choices = append([]int{}, choices...)
